@@ -57,7 +57,7 @@ pub struct State {
     pub counters: HashMap<u32, u64>,
     /// generic gates keyed by (site, arg): a thread reaching a closed gate parks
     pub closed: HashSet<(u32, u64)>,
-    pub parked: HashSet<(u32, u64)>,
+    pub parked: HashMap<(u32, u64), u32>,
     /// log boxcar events too (C08)
     pub log_boxcar: bool,
     /// hold scoring of this item index until released (cancel mid-scan)
@@ -229,13 +229,15 @@ pub fn hook(s: u32, arg: u64) {
                 st.log.push(Event { seq, site: s, arg, thread: thread_id() });
             }
             if st.closed.contains(&(s, arg)) {
-                st.parked.insert((s, arg));
+                *st.parked.entry((s, arg)).or_insert(0) += 1;
                 c.cv.notify_all();
                 let t0 = Instant::now();
                 while st.closed.contains(&(s, arg)) && t0.elapsed() < Duration::from_secs(120) && !c.abandon.load(Ordering::Relaxed) {
                     c.cv.wait_for(&mut st, Duration::from_millis(50));
                 }
-                st.parked.remove(&(s, arg));
+                if let Some(n) = st.parked.get_mut(&(s, arg)) {
+                    *n = n.saturating_sub(1);
+                }
             }
         }
         _ => {}
@@ -390,15 +392,16 @@ pub fn open_all_gates() {
     c.st.lock().closed.clear();
     c.cv.notify_all();
 }
-pub fn wait_parked(s: u32, arg: u64) -> bool {
+/// wait until `n` threads are parked at the closed gate (site, arg); bounded by `limit`
+pub fn wait_parked_n(s: u32, arg: u64, n: u32, limit: Duration) -> bool {
     let c = ctl();
     let t0 = Instant::now();
     let mut st = c.st.lock();
-    while !st.parked.contains(&(s, arg)) {
-        if t0.elapsed() > WAIT_LIMIT {
+    while st.parked.get(&(s, arg)).copied().unwrap_or(0) < n {
+        if t0.elapsed() > limit {
             return false;
         }
-        c.cv.wait_for(&mut st, Duration::from_millis(10));
+        c.cv.wait_for(&mut st, Duration::from_millis(5));
     }
     true
 }
